@@ -126,7 +126,7 @@ type BlockRecord struct {
 	AppHash  []byte           // app hash after this block
 	Commit   *cmttypes.Commit // commit FOR this block (decided when the next block is built)
 	ValSet   *cmttypes.ValidatorSet
-	InterOps []func(app *band.BandApp) // module-level operations applied right after this block's commit
+	InterOps []func(app *band.BandApp, ctx sdk.Context) error // module-level operations applied right after this block's commit
 }
 
 // Halt describes a panic or error in FinalizeBlock/Commit.
@@ -170,6 +170,7 @@ type World struct {
 
 	SimSeconds float64
 	TxCount    int64
+	genesisOps []func(app *band.BandApp, ctx sdk.Context) error
 }
 
 type Faults struct {
@@ -758,6 +759,37 @@ func (w *World) NextBlock(opts BlockOpts) *BlockRecord {
 	return blk
 }
 
+// ApplyInterOp runs a module-level operation (a keeper call another module would make) on every live replica between
+// two blocks, directly on the uncommitted working state, and records it so that a restarted replica re-applies it.
+func (w *World) ApplyInterOp(op func(app *band.BandApp, ctx sdk.Context) error) error {
+	var first error
+	for i, r := range w.Replicas {
+		if !r.Alive {
+			continue
+		}
+		err := op(r.App, w.interCtx(r.App))
+		if i == 0 || first == nil {
+			first = err
+		}
+	}
+	if blk := w.Blocks[w.Height]; blk != nil {
+		blk.InterOps = append(blk.InterOps, op)
+	} else {
+		w.genesisOps = append(w.genesisOps, op)
+	}
+	return first
+}
+
+func (w *World) interCtx(app *band.BandApp) sdk.Context {
+	hdr := cmtproto.Header{ChainID: w.Cfg.ChainID, Height: w.Height, Time: w.Time}
+	return app.BaseApp.NewUncachedContext(false, hdr)
+}
+
+func (w *World) interCtxAt(app *band.BandApp, b *BlockRecord) sdk.Context {
+	hdr := cmtproto.Header{ChainID: w.Cfg.ChainID, Height: b.Height, Time: b.Time}
+	return app.BaseApp.NewUncachedContext(false, hdr)
+}
+
 func (w *World) liveCount() int {
 	n := 0
 	for _, r := range w.Replicas {
@@ -812,6 +844,14 @@ func (w *World) restart(r *Replica) {
 		r.Height = w.Cfg.InitialHeight - 1
 	}
 	w.Log.Add("restart replica %d at committed height %d", r.ID, r.Height)
+	reapply := func(h int64) {
+		if b := w.Blocks[h]; b != nil {
+			for _, op := range b.InterOps {
+				_ = op(r.App, w.interCtxAt(r.App, b))
+			}
+		}
+	}
+	reapply(r.Height)
 	for h := r.Height + 1; h <= w.Height; h++ {
 		blk := w.Blocks[h]
 		resp := w.finalize(r, blk.Req)
@@ -826,6 +866,7 @@ func (w *World) restart(r *Replica) {
 			return
 		}
 		r.Height = h
+		reapply(h)
 		w.Stats.Probe("block_reexecuted_after_restart")
 	}
 }
